@@ -63,17 +63,7 @@ theorem nf_getElem {es : List Expr} (h : nfL es = true) {n : Nat} {el : Expr} (h
   nfL_mem h (List.mem_of_getElem? he)
 
 theorem nf_dictLookup {ks vs : List Expr} {k : Const} {r : Expr} (hv : nfL vs = true)
-    (h : dictLookup ks vs k = some r) : nf r = true := by
-  unfold dictLookup at h
-  split at h
-  · obtain ⟨p, hp, hr⟩ := List.exists_of_findSome?_eq_some h
-    have : p.2 ∈ vs := (List.of_mem_zip (show (p.1, p.2) ∈ ks.zip vs from hp)).2
-    split at hr
-    · split at hr
-      · cases hr; exact nfL_mem hv this
-      · cases hr
-    · cases hr
-  · cases h
+    (h : dictLookup ks vs k = some r) : nf r = true := nfL_mem hv (dictLookup_mem h)
 
 theorem isFusable_not_op3 {n : String} (h1 : n ≠ "Select") (h2 : n ≠ "SelectMany") (h3 : n ≠ "Where") (p : Expr) :
     isFusable n p = false := by
